@@ -290,6 +290,15 @@ def run(ctx, model_ok):
     rep = Reporter(ctx)
     all_dis = []
 
+    # ------------------------------------------------------------------ corpus first
+    cspecs = li.corpus_specs(PID, build)
+    cres, dis = run_chunked(ctx, cspecs, "corpus", model_ok)
+    all_dis += dis
+    for spec, r in zip(cspecs, cres):
+        ok, why = judge(spec, r)
+        if not ok:
+            rep.report(("corpus", why[:40]), spec, why)
+
     # ------------------------------------------------------------------ all ordered pairs, `==` / `!=`
     def pspec(k, i, j):
         return {"k": k, "a": vals[i][0], "ra": vals[i][1], "b": vals[j][0], "rb": vals[j][1], "same": i == j}
